@@ -34,6 +34,8 @@ type Fail struct {
 	Sig  string `json:"sig"`
 	What string `json:"what"`
 	At   int    `json:"at"` // op index
+	// Verify is the most recent observation of verify (facts gathered from the files, decision of the real code) before the failure, if any.
+	Verify *VerifyObs `json:"-"`
 }
 
 // Oracles selects which property oracles run.
@@ -82,6 +84,10 @@ func Run(h History, or Oracles) (fails []Fail, st RunStats, err error) {
 	defer e.Destroy()
 	add := func(at int, sig, what string) {
 		f := Fail{Sig: sig, What: what, At: at}
+		if n := len(st.VerifyObs); n > 0 {
+			v := st.VerifyObs[n-1]
+			f.Verify = &v
+		}
 		if or.Classify != nil {
 			or.Classify(h, at, &f)
 		}
